@@ -313,8 +313,11 @@ pub fn record_c14(rec: &mut Recorder, seed: u64, thorough: bool) {
 }
 
 fn bundled(rec: &mut Recorder, rng: &mut impl Rng) {
-    for (fmt, path) in [("jaspar16", "/repo/lightmotif-io/tests/MA0001.3.pfm"), ("jaspar16", "/repo/lightmotif-io/tests/MA0017.3.pfm"),
-                        ("uniprobe", "/repo/lightmotif-io/tests/demo.uniprobe"), ("transfac", "/repo/lightmotif-io/tests/M00005.transfac")] {
+    let repo = std::env::var("LMV_REPO").unwrap_or_else(|_| "/repo".to_string());
+    for (fmt, rel) in [("jaspar16", "lightmotif-io/tests/MA0001.3.pfm"), ("jaspar16", "lightmotif-io/tests/MA0017.3.pfm"),
+                        ("uniprobe", "lightmotif-io/tests/demo.uniprobe"), ("transfac", "lightmotif-io/tests/M00005.transfac")] {
+        let path = format!("{}/{}", repo, rel);
+        let path = path.as_str();
         let Ok(data) = std::fs::read(path) else { continue };
         // parse once with a whole-file chunk, once byte by byte: the two record lists must agree (validated as outcome lists)
         let mut outs: Vec<Vec<Value>> = Vec::new();
